@@ -199,6 +199,12 @@ func (e *env) untargeted(sc scheme, r *gen.Rng, base any, others map[string]any)
 			var fails []string
 			if v.accepted {
 				fails = sc.oracle(cl)
+				if forgeryMode(c, sc.name, fails, nil) != modeStrict {
+					// all algebraic evidence is still valid (degenerate statements such as n = 2, where the constraint polynomial is
+					// identically zero): only (size, g) became inconsistent, or nothing at all - see forgeryMode
+					lenient(c, sc.op, sc.name, fmt.Sprintf("%s/substitution/%s/%s", sc.prefix, stripIdx(nd.path), m.kind), v)
+					continue
+				}
 				if onlyLinking(fails) {
 					key = sc.prefix + "/substitution-accepted/permutation-argument-not-linked/" + nd.path + "/" + m.kind
 				}
